@@ -45,6 +45,7 @@ fn main() {
         "hist" => scen::hist::main(&args),
         "grammar" => scen::grammar::main(&args),
         "urgency" => scen::urgency::main(&args),
+        "fault" => scen::fault::main(&args),
         _ => {
             eprintln!("usage: tcs-harness <hist|…> --out FILE [--seed N] …");
             2
